@@ -237,33 +237,43 @@ class Executor:
 
     def chain_steps(self, r):
         """Completed steps that extend the trajectory, judged from the history alone:
-        a step is on the trajectory when it starts from the current trajectory state
-        and has the full CFL length of that state (duplicates - a snapshot exactly on
-        the step end - count once, the last one)."""
+        among the steps that start from the current trajectory state with the full CFL
+        length of that state, the one whose output a later step starts from (the last
+        such step if there is none: end of the history)."""
         from .oracles import expected_tick
         key = lambda d, t: (d, float(t).hex())
         oks = [x for x in r.trace.steps if x.status == "ok"]
+        inkeys = [key(x.dig_in, x.t_in) for x in r.trace.steps]
+        idx_of = {id(x): n for n, x in enumerate(r.trace.steps)}
         cur = key(r.f_before[0], r.f_before[1])
         chain = []
-        for n, x in enumerate(oks):
-            if key(x.dig_in, x.t_in) != cur:
-                continue
-            et = expected_tick(self, r, x)
-            if not (bool(np.all(np.isfinite(et))) and float(np.min(et)) > 0):
-                raise ValueError("inadmissible time step")
-            if r.dtlocal:
-                full_len = x.dt_is_array and bool(np.array_equal(x.dt, et))
-            else:
-                full_len = (not x.dt_is_array) and x.dt == float(np.min(et))
-            if not full_len:
-                continue
-            out = key(x.dig_out, x.t_out)
-            dup = any(key(y.dig_in, y.t_in) == cur and key(y.dig_out, y.t_out) == out and
-                      y.dt_is_array == x.dt_is_array for y in oks[n + 1:])
-            if dup:
-                continue
-            chain.append(x)
-            cur = out
+        n = 0
+        while n < len(oks):
+            cands = []
+            for x in oks[n:n + 256]:   # steps from one state are taken close together
+                if key(x.dig_in, x.t_in) != cur:
+                    continue
+                et = expected_tick(self, r, x)
+                if not (bool(np.all(np.isfinite(et))) and float(np.min(et)) > 0):
+                    raise ValueError("inadmissible time step")
+                if r.dtlocal:
+                    full_len = x.dt_is_array and bool(np.array_equal(x.dt, et))
+                else:
+                    full_len = (not x.dt_is_array) and x.dt == float(np.min(et))
+                if full_len:
+                    cands.append(x)
+            if not cands:
+                break
+            pick = None
+            for x in cands:
+                out = key(x.dig_out, x.t_out)
+                if out != cur and any(k == out for k in inkeys[idx_of[id(x)] + 1:idx_of[id(x)] + 513]):
+                    pick = x
+            if pick is None:
+                pick = cands[-1]
+            chain.append(pick)
+            cur = key(pick.dig_out, pick.t_out)
+            n = oks.index(pick, n) + 1
         return chain
 
     def _reclassify(self, r):
@@ -497,7 +507,8 @@ class Executor:
             if not cand:
                 continue
             x = cand[0]
-            kk = len([y for y in full if y.idx < x.idx])
+            from .oracles import state_index
+            kk = state_index(r, full, x)
             if x.dt_is_array or not (x.dt > 0):
                 continue  # degenerate side step: C07's business
             if float(x.t_in).hex() != float(traj.states[off + kk].time).hex() or x.dig_in != traj.digs[off + kk]:
